@@ -380,7 +380,7 @@ Section Skeleton.
           | O => Ret ReplyOk                                       (* nothing (more) to chase *)
           | _ => bind (nq (mk_cx (cx_be c) (S (cx_chase c)) (cx_dname c) (cx_nsl c)))
                    (fun r => match r with
-                             | ReplyWork e _ => Ret (ReplyWork e false)   (* SetRcodeWithEDE(msg, ...) on the chased message *)
+                             | ReplyWork e _ => Ret (ReplyWork e false)   (* SetRcodeWithEDE(msg, ...) on the chased message: no client OPT there *)
                              | ReplyLocal => Ret ReplyLocal
                              | _ => Choose 1 (fun stop => match stop with
                                                           | O => chase left'
@@ -422,8 +422,15 @@ Section Skeleton.
             end)
         end).
 
-    (* hit path: the cached message is chased and written as it comes back *)
-    Definition pipeline_hit : prog reply := chase_gate.
+    (* hit path (handleCacheHit): the cached message is chased; a chase that ends in SERVFAIL while the
+       tree is over budget is rebuilt from the client's request, as the miss path's writer does
+       (fix ca465fd); anything else is written as it comes back *)
+    Definition pipeline_hit : prog reply :=
+      bind chase_gate (fun r =>
+        match r with
+        | ReplyOk => Ret ReplyOk
+        | r' => EnfErr (fun e => match e with ROk => Ret r' | e' => Ret (ReplyWork e' true) end)
+        end).
 
     Definition pipeline : prog reply :=
       Choose 1 (fun hit => match hit with O => pipeline_miss | _ => pipeline_hit end).
